@@ -39,16 +39,29 @@ theorem resendStored_ind {Q : C → Prop} (c : C) (h1 : Q (sendStored c))
 theorem sendPostProcess_s (c : C) :
     (sendPostProcess c).s = c.s ∨ (sendPostProcess c).s = { c.s with sendSet := true } := by
   unfold sendPostProcess
-  (repeat' split) <;> simp [C.push]
+  split
+  · extract_lets ms
+    split
+    · exact .inr rfl
+    · exact .inl rfl
+  · exact .inl rfl
 
 theorem sendPostProcess_evs (c : C) :
     (sendPostProcess c).ev = c.ev ∨ ∃ ms, (sendPostProcess c).ev = c.ev ++ [.timerReset .pingreqSend ms] := by
   unfold sendPostProcess
-  (repeat' split) <;> simp [C.push]
+  split
+  · extract_lets ms
+    split
+    · exact .inr ⟨_, rfl⟩
+    · exact .inl rfl
+  · exact .inl rfl
 
 theorem sendPostProcess_cfg' (c : C) : (sendPostProcess c).cfg = c.cfg := by
   unfold sendPostProcess
-  (repeat' split) <;> simp [C.push]
+  split
+  · extract_lets ms
+    split <;> rfl
+  · rfl
 
 /-- `resendStored` agrees with `sendStored` on every field except `sendSet` … -/
 theorem resendStored_s (c : C) :
